@@ -72,7 +72,9 @@ func main() {
 	trace := flag.Bool("trace", false, "trace SSA")
 	quiet := flag.Bool("quiet", true, "suppress target output")
 	tags := flag.String("tags", "verif", "build tags")
+	tier := flag.Int("tier", 0, "0 quick, 1 thorough (vTier())")
 	flag.Parse()
+	interp.Tier = *tier
 
 	rep := &Report{Dir: *dir, Solver: *solver}
 	fail := func(err error) {
@@ -243,6 +245,7 @@ func runHarness(ws []*interp.Worker, name string, maxPaths int) *HarnessReport {
 	reached := map[string]bool{}
 	funcs := map[string]bool{}
 	violSeen := map[string]int{}
+	violSeen2 := map[string]int{}
 	problemSeen := map[string]bool{}
 	q0, s0, u0, k0 := 0, 0, 0, 0
 	var d0 time.Duration
@@ -298,7 +301,10 @@ func runHarness(ws []*interp.Worker, name string, maxPaths int) *HarnessReport {
 				for _, v := range res.Violations {
 					key := v.Label + "|" + v.Msg
 					violSeen[key]++
-					if violSeen[key] <= 3 {
+					ck, _ := json.Marshal(v.Choices)
+					key2 := key + "|" + string(ck)
+					violSeen2[key2]++
+					if violSeen2[key2] <= 1 && len(hr.Violations) < 60 {
 						hr.Violations = append(hr.Violations, v)
 					}
 				}
